@@ -11,10 +11,19 @@ RULE = ("layouts with 2-3 steps sharing one authorised functionary; for every or
 ASSUMPTIONS = ["signatures present are non-malleable (ground-truth table)"]
 
 
-def gen_case(rng, root, force=None):
+# step names that agree on a long beginning (and on their end) and differ in between or only in length
+LONG_NAMES = [["package-deb", "package-rpm", "package-debug"], ["integration-test-1", "integration-test-2", "integration-test-10"],
+              ["build-linux-amd64", "build-linux-arm64", "build-linux-amd6"], ["sign-release", "sign-releasf", "sign-rel"]]
+
+
+def gen_case(rng, root, force=None, case_no=None):
     n = rng.choice([2, 2, 3])
     ch = scen.gen_chain(rng, root, n_steps=n, n_insp=rng.choice([0, 1]), thresholds=(1,), max_funcs=1)
-    if rng.random() < 0.2:
+    if case_no is not None and case_no % 3 == 1:
+        # (every run: a name comparison that looks at a part of the name only - its first characters, its length, its end)
+        for i_, s_ in enumerate(ch.steps):
+            s_["name"] = LONG_NAMES[(case_no // 3) % len(LONG_NAMES)][i_]
+    elif rng.random() < 0.2:
         # a step whose name is the empty string is a step like any other (its link says so in its signed content)
         ch.steps[rng.randrange(n)]["name"] = ""
     pool = [k for k in W.pool() if k not in ch.owners]
@@ -161,10 +170,10 @@ def gen_case(rng, root, force=None):
     return ch, desc
 
 
-def one_case(rng, res, force=None):
+def one_case(rng, res, force=None, case_no=None):
     root = scen.new_root()
     try:
-        ch, desc = gen_case(rng, root, force)
+        ch, desc = gen_case(rng, root, force, case_no)
         # B's file must carry A's signed name: link_spec "name" is what is signed
         scn = scen.build(ch, root, rng)
         scn.params = vcommon.pick_params(rng, desc)
@@ -194,8 +203,8 @@ def one_case(rng, res, force=None):
 def shard(seed, idx, n, tier):
     res = core.Result()
     rng = core.rng_for(seed, "c08", idx)
-    for _ in range(n):
-        one_case(rng, res)
+    for j in range(n):
+        one_case(rng, res, case_no=idx * n + j)
     return res
 
 
